@@ -3,6 +3,7 @@
   cirbo/synthesis/generation/arithmetics/multiplication.py   add_mul, add_mul_alter, add_mul_pow2_m1,
                                                               last_step_sum_with_new_powers_sum, add_mul_karatsuba,
                                                               add_mul_karatsuba_with_efficient_sum, add_mul_dadda,
+                                                              add_mul_wallace (grammar of translator/t22_wallace.py),
                                                               MulMode, _process_mul, generate_mul
   cirbo/synthesis/generation/arithmetics/square.py           add_square_pow2_m1, add_square, SquareMode,
                                                               _process_square, generate_square
@@ -23,8 +24,6 @@ What is NOT re-derived here (used exactly as the hand models use it):
                                                          parameter list is compared literally with the text the adaptor
                                                          stands for (EXTERNAL)
   add_sub_two_numbers                                 -> the hand model of property C09 (Model/ArithSub.v), same way
-  add_mul_wallace                                     -> the hand model Model/ArithMul.v (NOT translated: nested closures
-                                                         over a mutable cell, see DESIGN.md); only named by _process_mul
   MulMode / SquareMode                                -> the constructors of mul_mode / square_mode (Model/ArithMul.v,
                                                          ArithSquare.v); the class bodies are compared member by member
 
@@ -86,9 +85,12 @@ FUNCS = [
     ('mul', 'add_mul'), ('mul', 'add_mul_alter'), ('mul', 'add_mul_pow2_m1'),
     ('mul', 'last_step_sum_with_new_powers_sum'),
     ('mul', 'add_mul_karatsuba'), ('mul', 'add_mul_karatsuba_with_efficient_sum'),
-    ('mul', 'add_mul_dadda'),
+    ('mul', 'add_mul_dadda'), ('mul', 'add_mul_wallace'),
     ('sq', 'add_square_pow2_m1'), ('sq', 'add_square'),
 ]
+# functions with nested closures: translated by WalFnTr of translator/t22_wallace.py (a subclass of MulFnTr, imported
+# lazily by MulUnit.run because that module imports this one)
+CLOSURE_FUNCS = {('mul', 'add_mul_wallace')}
 DISPATCH = [('mul', '_process_mul', 'MulMode'), ('sq', '_process_square', 'SquareMode')]
 WRAPPERS = [('mul', 'generate_mul'), ('sq', 'generate_square')]
 
@@ -144,11 +146,6 @@ EXTERNAL = {
         [('input_labels', LABELS, None, False), BE, ('basis', BASIS, XAIG, True)], TList(LABELS)),
     ('sub', 'add_sub_two_numbers'): (
         'add_sub_two_numbers',
-        f'circuit: Circuit, input_labels_a: {ITER}, input_labels_b: {ITER}, *, big_endian: bool=False',
-        [('input_labels_a', LABELS, None, False), ('input_labels_b', LABELS, None, False), BE], LABELS),
-    # the one multiplication mode that stays with the hand model
-    ('mul', 'add_mul_wallace'): (
-        'add_mul_wallace',
         f'circuit: Circuit, input_labels_a: {ITER}, input_labels_b: {ITER}, *, big_endian: bool=False',
         [('input_labels_a', LABELS, None, False), ('input_labels_b', LABELS, None, False), BE], LABELS),
 }
@@ -961,7 +958,11 @@ class MulUnit(t14.Unit):
             f = m.funcs.get(name)
             if f is None:
                 raise TranslatorError(f'{m.path}: {name} not found')
-            sig, text = MulFnTr(self, m, f).translate()
+            cls = MulFnTr
+            if (key, name) in CLOSURE_FUNCS:
+                from .t22_wallace import WalFnTr
+                cls = WalFnTr
+            sig, text = cls(self, m, f).translate()
             self.sigs[(key, name)] = sig
             out += [f'(* {m.path}: {name} *)', text, '']
         for key, name, cls in DISPATCH:
@@ -983,11 +984,12 @@ HEADER = '''(* GENERATED by translator/t19_mul_gen.py from cirbo/synthesis/gener
    store / append / popleft rebinds the variable (an item of a nested list is read with py_nth, updated and written back
    with py_set); tmp'k are the temporaries of left-to-right evaluation; the Python built-ins are Model/PyPrims.v and
    Model/PyPrims08.v; add_gate_from_tt is gate_tt; add_sum2 / add_sum3 are the regenerated cells of T4; the py_add_sum_*
-   adaptors, add_sum_two_numbers and add_sub_two_numbers are the hand models of properties C07 / C09; add_mul_wallace is
-   the hand model of Model/ArithMul.v; a function that calls itself is a Fixpoint on fuel. *)
+   adaptors, add_sum_two_numbers and add_sub_two_numbers are the hand models of properties C07 / C09; a function that
+   calls itself is a Fixpoint on fuel; a nested closure (add_mul_wallace, translator/t22_wallace.py) is a local
+   state-passing function: the lists it mutates are passed in and handed back, Model/PyPrimsWal.v is its prelude. *)
 Require Import Cirbo.Model.Base Cirbo.Model.Gate Cirbo.Model.Circuit Cirbo.Model.Builder Cirbo.Model.PyPrims.
 Require Import Cirbo.Model.ArithSub Cirbo.Model.ArithSum2 Cirbo.Model.ArithSumN Cirbo.Model.ArithSumW.
-Require Import Cirbo.Model.PyPrims08 Cirbo.Model.ArithMul Cirbo.Model.ArithSquare.
+Require Import Cirbo.Model.PyPrims08 Cirbo.Model.PyPrimsWal Cirbo.Model.ArithMul Cirbo.Model.ArithSquare.
 (* last, so that PLACEHOLDER_STR is the regenerated constant of T4 and not the one of Model/ArithMul.v *)
 Require Import Cirbo.Generated.ArithTables Cirbo.Generated.ArithCells.
 From Coq Require Import ZArith Ascii.
